@@ -11,6 +11,7 @@ open Backend Spsc
 
 /-- what a state property must be stable under to survive a poll, given an injection runner that keeps it -/
 structure ClosedC (P : BSt → Prop) : Prop where
+  note : ∀ s, P s → P (s.emit (.notify "n:fmterr"))
   clock : ∀ s n, P s → P { s with now := n }
   gone : ∀ s, P s → P { s with backendGone := true }
   lastFlush : ∀ s n, P s → P { s with lastFlush := n }
@@ -62,8 +63,12 @@ theorem readQueue_okC {inj : BSt → Nat → BSt} (hi : InjOK P inj) (tsNow : Op
       · rename_i st rest hq
         split
         · exact hfin
-        · have h3 : P (inj (readOneSt s i st rest) 3) :=
-            (hi _ 3 (hc.readOne s i st rest hs (by simpa using hr) hq)).1
+        · have h3 : P (inj (fmtNote (readOneSt s i st rest) st) 3) :=
+            (hi _ 3 (by
+              unfold fmtNote
+              split
+              · exact hc.note _ (hc.readOne s i st rest hs (by simpa using hr) hq)
+              · exact hc.readOne s i st rest hs (by simpa using hr) hq)).1
           split
           · exact readQueue_okC hi tsNow i fuel _ _ h3
           · exact hc.commit _ _ h3
